@@ -142,6 +142,8 @@ Definition denote_mout (m : mout) (x y : Z) : option (nat * Z) :=
   | MArm a (Some v) => Some (a, v)
   | MArmVar a 0 => Some (a, x)
   | MArmVar a _ => Some (a, y)
+  | MIncDec true sgn T => Some (num_inc sgn T x)
+  | MIncDec false _ T => Some (num_dec T x)
   | _ => None
   end.
 Definition denote_fout (o : fout) (x y : Z) : option Z :=
@@ -223,4 +225,39 @@ Definition check_lf (cs : list lf_case) : list (Z * rres * option rres) :=
     let mf := lf_fold f (if bx then Some x else None) (if bY then Some y else None) x y in
     if forallb (lf_rt_ok f x y) runs
        && match mf with Some r => forallb (rres_eqb r) runs | None => true end
+    then [] else [(k, mr, mf)]) (indexed 0 cs).
+
+(* ---- leg part: one literal operand in the body, one run-time operand ----
+   (operator, type, literal on the left?, literal, run-time operand,
+    runs = [f_lit fold on; f_lit fold off; f_args fold on; f_args fold off]) *)
+Definition part_case := (pop * ity * bool * Z * Z * list rres)%type.
+(* when the operator is an overflowing add/sub of a literal, what the fold model (incl. the
+   inc/dec helpers) predicts for overflowing_add/sub: (wrapped value, overflowed?) *)
+Definition part_fold (p : pop) (T : ity) (lit_left : bool) (lit x : Z) : option rres :=
+  match p with
+  | PVar POverflowing a =>
+      let lm := match a, signed T with
+                | AAdd, false => Some (UAdd T) | ASub, false => Some (USub T)
+                | AAdd, true => Some (IAdd T) | ASub, true => Some (ISub T)
+                | AMul, _ => None end in
+      match lm, T with
+      | _, U256 | _, Felt | None, _ => None
+      | Some f, _ =>
+          let '(kx, ky, a0, b0) := if lit_left then (Some lit, None, lit, x) else (None, Some lit, x, lit) in
+          match fold_match f [kx; ky] with
+          | Some m => match denote_mout m a0 b0 with
+                      | Some (arm, v) => Some (Ok (RPair v (if Nat.eqb arm 0 then 0 else 1)))
+                      | None => None end
+          | None => None
+          end
+      end
+  | _ => None
+  end.
+Definition check_part (cs : list part_case) : list (Z * rres * option rres) :=
+  flat_map (fun (kc : Z * part_case) =>
+    let '(k, (p, T, lit_left, lit, x, runs)) := kc in
+    let mr := if (lit_left : bool) then part_rt p T lit x else part_rt p T x lit in
+    let mf := part_fold p T lit_left lit x in
+    if forallb (rres_eqb mr) runs
+       && match mf with Some r => rres_eqb r mr | None => true end
     then [] else [(k, mr, mf)]) (indexed 0 cs).
